@@ -6,6 +6,9 @@ Partly within reach of contracts (level `other`):
           function moves the cursor only through it;
           the short-if fence computed in Parser._stat is the first newline token at or after the condition (or the end of
           the code), installed for the body and always removed (try / finally).
+          cursor hygiene of every parser function on all control paths (given the _accept contract, inductively): a function
+          that returns None has restored the cursor -- except _var / _varlist, whose only callers restore it -- and every node is
+          built with start = a position saved from the cursor and end = the cursor.
   BOUNDED completeness and tree adequacy: programs generated from an independent reference grammar
           (specs/luagrammar.py) with the tree each denotes, in six layouts, through the real lexer and parser: accepted,
           consumed to the last token, tree == derivation (operators / operands in source order), short-if extents.
@@ -75,6 +78,14 @@ def run(tier, seed):
     except SymErr as e:
         chk.undecide('Parser._stat left the supported subset: %s' % e)
     ground.account(chk, shapes(), 'SHAPE')
+    try:
+        from contracts import parserpaths
+        from pyvc import effects
+        hres, dirty = parserpaths.hygiene()
+        ground.account(chk, hres, 'PATHS')
+        chk.extra['parser_functions_that_rely_on_their_caller_to_restore_the_cursor'] = dirty
+    except (NotImplementedError, effects.TooManyPaths) as e:
+        chk.undecide('a parser function left the subset of the path analysis: %r' % (e,))
     big = tier == 'thorough'
     nat = astnative.run('parse', seed, 6000 if big else 700, depth=4 if big else 3)
     if nat.get('timeout') or nat.get('error'):
